@@ -372,7 +372,10 @@ class AccessoryConn(asyncio.Protocol):
             headers.append(("Transfer-Encoding", " chunked"))
         return refhttp.serialize_message("HTTP", code, headers, body, mode)
 
-    def event(self, body: bytes) -> bytes:
+    def event(self, body: bytes, chunks=None) -> bytes:
+        if chunks:
+            # Transfer-Encoding: chunked (real accessories send events either way)
+            return refhttp.serialize_message("EVENT", 200, [("Content-Type", " application/hap+json"), ("Transfer-Encoding", " chunked")], body, "chunked", chunks=chunks)
         return refhttp.serialize_message(
             "EVENT", 200, [("Content-Type", " application/hap+json"), ("Content-Length", " " + str(len(body)))], body, "cl"
         )
